@@ -21,6 +21,40 @@ func init() {
 }
 
 func c08R1(c *Ctx) {
+	// universal form: unless there is nothing to resume (the destination is empty, or there is no plain file behind the
+	// writer / reader), neither end leaves its prefix-hash step successfully without the repositioning it exists for
+	{
+		nothingToResume := func(from, to *ssa.BasicBlock) bool {
+			fs := edgeFactsTo(from, to)
+			if factZero(fs, isFieldLoad("Size")) {
+				return true
+			}
+			for _, fc := range fs {
+				op, x, y, ok := cmpFact(fc)
+				if !ok || op != token.EQL || !isNilConst(y) {
+					continue
+				}
+				if isVar("writer")(x) || isVar("file")(x) {
+					return true
+				}
+				if call, _ := callOf(x); call != nil && call.Call.IsInvoke() && call.Call.Method.Name() == "getFile" {
+					return true
+				}
+			}
+			return false
+		}
+		for _, side := range []struct{ fn, barrier, what string }{
+			{"trzszTransfer.recvPrefixHash", "(*os.File).Truncate", "cutting the destination at the proven offset"},
+			{"trzszTransfer.sendPrefixHash", "(*os.File).Seek", "moving the source to the proven offset"},
+		} {
+			f := c.fn(side.fn)
+			hit, path := reachFromE(f.Blocks[0], 0, c.maySucceed, func(in ssa.Instruction) bool {
+				ci, ok := in.(ssa.CallInstruction)
+				return ok && calleeID(ci.Common()) == side.barrier
+			}, nothingToResume)
+			c.check(hit == nil, c.fnName(f)+"/no-success-without-repositioning", c.pos(f.Pos()), "with something to resume the step succeeds only after "+side.what, "the step can succeed for a non-empty destination without "+side.what+": the old tail / a wrong offset survives a transfer that reports success", c.pathStr(path)...)
+		}
+	}
 	f := c.fn("trzszTransfer.recvPrefixHash")
 	seeks := callsIn(f, idIs("(*os.File).Seek"))
 	truncs := callsIn(f, idIs("(*os.File).Truncate"))
